@@ -732,6 +732,15 @@ class PeqStream(ProtoBase):
                 cands.append(uperlib.show_sx(toggle(pty, v, rng)))
             for w in cands:
                 reqs.append(f"proto peq x {ty} {val} {w}")
+        # two PRESENT optional values that differ only by default-ish components inside
+        n = "zoo_nested::Outer2"
+        if n in self.desc:
+            inners = ["(seq (some (int 7)) (some (list)))", "(seq (some (int 7)) (none))", "(seq (some (int 0)) (none))", "(seq (none) (none))",
+                      "(seq (none) (some (list)))", "(seq (some (int 7)) (some (list (int 0))))", "(seq (none) (some (list (int 0))))"]
+            for a in inners:
+                for b in inners:
+                    reqs.append(f"proto peq x {self.desc[n]} (seq (some {a}) (int 3)) (seq (some {b}) (int 3))")
+                reqs.append(f"proto peq x {self.desc[n]} (seq (some {a}) (int 3)) (seq (none) (int 3))")
         return reqs
 
     def compare(self, req, impl, model):
